@@ -335,6 +335,35 @@ pub fn run(args: &Args, rep: &mut Report) {
             }
         }
     }
+    // (0b) containment family: one operand is stored inside the other (a literal array / map built around the very
+    // value, or an alias held by a stored container), for every binary operator, index and call position - the
+    // evaluator then copies, compares or formats a container while it holds the lock of a value inside it
+    {
+        let ops = ["+", "-", "*", "/", "%", "&", "|", "<", "<=", ">", ">=", "==", "!=", "=", "?="];
+        let vars = ["s", "a", "arr", "m", "f", "t", "n", "m.self_a", "arr[0]"];
+        let mut k = 0usize;
+        for x in vars {
+            let wraps = [format!("[{}]", x), format!("{{'k': {}}}", x), format!("[[{}]]", x), format!("[1, {}, {}]", x, x), "arr".to_string(), "m".to_string()];
+            for w in &wraps {
+                for op in ops {
+                    for text in [format!("{} {} {}", x, op, w), format!("{} {} {}", w, op, x)] {
+                        k += 1;
+                        if args.mine(k) && args.keep(k / args.nshards.max(1), 10) {
+                            cases.push(("containment".into(), text, ENTRIES[k % ENTRIES.len()]));
+                            rep.count("family_containment", 1);
+                        }
+                    }
+                }
+                for text in [format!("{}[{}]", x, w), format!("{}[{}]", w, x), format!("indexOf({}, {})", x, w), format!("toString({}) + {}", x, w), format!("length({}) + {}", w, x)] {
+                    k += 1;
+                    if args.mine(k) && args.keep(k / args.nshards.max(1), 10) {
+                        cases.push(("containment".into(), text, ENTRIES[k % ENTRIES.len()]));
+                        rep.count("family_containment", 1);
+                    }
+                }
+            }
+        }
+    }
     // (1) grammar-derived with all type combinations
     let n1 = args.scale(2500, 80000);
     for i in 0..n1 {
@@ -369,7 +398,7 @@ pub fn run(args: &Args, rep: &mut Report) {
         let sampled: Vec<(String, String, Entry)> = cases
             .iter()
             .enumerate()
-            .filter(|(i, c)| c.0 != "generated" && c.0 != "mutated" && c.0 != "unicode" && args.keep(*i, 9) || (c.0 == "generated" || c.0 == "mutated" || c.0 == "unicode"))
+            .filter(|(i, c)| c.0 != "generated" && c.0 != "mutated" && c.0 != "unicode" && c.0 != "containment" && args.keep(*i, 9) || (c.0 == "generated" || c.0 == "mutated" || c.0 == "unicode" || c.0 == "containment"))
             .map(|(_, c)| c.clone())
             .collect();
         run_inprocess(args, rep, &sampled);
@@ -625,7 +654,7 @@ fn judge_results(rep: &mut Report, cases: &[(String, String, Entry)], results: &
             }
             "selfdeadlock" => {
                 rep.violation(
-                    &format!("self-deadlock:{}", if label == "generated" || label == "mutated" || label == "unicode" { classify_alias(text) } else { label.clone() }),
+                    &format!("self-deadlock:{}", if label == "generated" || label == "mutated" || label == "unicode" || label == "containment" { classify_alias(text) } else { label.clone() }),
                     &format!("{:?} via {} locks a value it already holds (blocks forever on its own data lock)", head, entry_name(*entry)),
                     w,
                 );
@@ -646,7 +675,7 @@ fn judge_results(rep: &mut Report, cases: &[(String, String, Entry)], results: &
             }
             _ => {
                 rep.violation(
-                    &format!("does-not-terminate:{}", if label == "generated" || label == "mutated" || label == "unicode" { classify_alias(text) } else { label.clone() }),
+                    &format!("does-not-terminate:{}", if label == "generated" || label == "mutated" || label == "unicode" || label == "containment" { classify_alias(text) } else { label.clone() }),
                     &format!("{:?} via {} did not return ({})", head, entry_name(*entry), detail),
                     w,
                 );
